@@ -172,18 +172,24 @@ type txCase struct {
 	folder int // 0 INBOX, 1 Filed (exists for old users), 2 a folder nobody has yet
 	spam   bool
 	hist   bool
+	quota  bool // quota checking on, with a limit that full@example.com (recipient "FULL") has used up
 }
 
 func (t txCase) line() string {
-	return fmt.Sprintf("tx %d %d %v %v %s", t.shape, t.folder, t.spam, t.hist, strings.Join(t.rcpts, ","))
+	l := fmt.Sprintf("tx %d %d %v %v %s", t.shape, t.folder, t.spam, t.hist, strings.Join(t.rcpts, ","))
+	if t.quota {
+		l += " quota"
+	}
+	return l
 }
 
 func parseTx(l string) (txCase, bool) {
 	f := strings.Fields(l)
-	if len(f) != 6 || f[0] != "tx" {
+	if (len(f) != 6 && len(f) != 7) || f[0] != "tx" {
 		return txCase{}, false
 	}
 	var t txCase
+	t.quota = len(f) == 7 && f[6] == "quota"
 	fmt.Sscan(f[1], &t.shape)
 	fmt.Sscan(f[2], &t.folder)
 	t.spam = f[3] == "true"
@@ -193,6 +199,9 @@ func parseTx(l string) (txCase, bool) {
 }
 
 var txSeq int
+
+// quotaLimit: more than any generated message, less than what full@example.com holds
+const quotaLimit = 60000
 
 func (e *env) play(t txCase) {
 	txSeq++
@@ -210,6 +219,9 @@ func (e *env) play(t txCase) {
 			// 150 distinct new users per run, later ones are the earlier ones again
 			e.nNew++
 			rcpts[i] = fmt.Sprintf("fresh%dx%d@example.com", e.o.Seed, e.nNew%150)
+		}
+		if r == "FULL" {
+			rcpts[i] = "full@example.com"
 		}
 	}
 	folder := []string{"INBOX", "Filed", fmt.Sprintf("Fresh%d", txSeq)}[t.folder%3]
@@ -244,6 +256,11 @@ func (e *env) play(t txCase) {
 	}
 	cfg := *e.w.LCfg
 	cfg.Delivery.DefaultFolder = folder
+	if t.quota {
+		cfg.Delivery.QuotaEnabled = true
+		cfg.Delivery.QuotaLimit = quotaLimit
+		e.rep.Hit("quota:on")
+	}
 	rcptReplies, dataReplies := deliverCfg(e.w, &cfg, "sender@example.org", rcpts, raw)
 	for i, r := range rcptReplies {
 		if !strings.HasPrefix(r, "250") {
@@ -309,6 +326,41 @@ func (e *env) play(t txCase) {
 			}
 			c.Close()
 		}
+	}
+	// the promise itself, read off the replies (no model involved): one reply per recipient, and every store gained exactly as
+	// many copies as 2xx replies were given for it
+	if len(codes) != len(rcpts) {
+		e.rep.Violate("impl-violation", "one reply per recipient (Props.C01.reply_per_recipient)", fmt.Sprintf("%s: %d recipients, %d replies after end-of-data: %v", t.line(), len(rcpts), len(codes), dataReplies), append(replay, "raw "+hx.H(raw)))
+		return
+	}
+	promised := map[string]int{}
+	for i, tg := range tgts {
+		if strings.HasPrefix(codes[i], "2") {
+			promised[tg.owner]++
+		}
+		e.rep.Hit("reply:" + codes[i])
+	}
+	for _, o := range order {
+		if promised[o] != gain[o] {
+			e.rep.Violate("impl-violation", "2xx ⇔ exactly one new message (Props.C01.count_is_accepted)", fmt.Sprintf("%s (shape %s, recipients %v): replies %v promise %d new message(s) to %s, its folder gained %d", t.line(), sh.name, rcpts, codes, promised[o], o, gain[o]), append(replay, "raw "+hx.H(raw)))
+			return
+		}
+	}
+	if t.quota {
+		// which recipient is over its quota is policy (C17); here only the promise counts. The run is informative when the full
+		// store was refused and somebody else served in the same transaction
+		refused, served := false, false
+		for i := range rcpts {
+			if rcpts[i] == "full@example.com" && codes[i] == "552" {
+				refused = true
+			} else if strings.HasPrefix(codes[i], "2") {
+				served = true
+			}
+		}
+		if refused && served {
+			e.rep.Hit("quota:mixed-transaction")
+		}
+		return
 	}
 	valid := "0"
 	if sh.valid {
@@ -383,6 +435,15 @@ func main() {
 	u0, _ := db.GetUserByEmail(shared, "u0@example.com")
 	db.AssignUserToRoleMailbox(shared, u0, roleID, u0)
 
+	// full@example.com holds more than the quota limit used by the quota transactions
+	{
+		c := w.Login("full@example.com")
+		for i := 0; i < 3; i++ {
+			c.Append("INBOX", "", "From: a@b\r\nTo: full@example.com\r\nSubject: ballast\r\n\r\n"+strings.Repeat("ballast ballast ballast ballast ballast ballast ballast ballast\r\n", 400))
+		}
+		c.Close()
+	}
+
 	var txs []txCase
 	if o.Replay != "" {
 		for _, l := range hx.ReadLines(o.Replay) {
@@ -399,8 +460,12 @@ func main() {
 		nshape := len(shapes(e.rng, "x"))
 		// every shape once to one existing user, once to a mixed list
 		for s := 0; s < nshape; s++ {
-			txs = append(txs, txCase{s, []string{"u1@example.com"}, 0, false, false})
-			txs = append(txs, txCase{s, []string{"u2@example.com", "NEW", "team@example.com", "u2@example.com"}, 0, false, true})
+			txs = append(txs, txCase{s, []string{"u1@example.com"}, 0, false, false, false})
+			txs = append(txs, txCase{s, []string{"u2@example.com", "NEW", "team@example.com", "u2@example.com"}, 0, false, true, false})
+		}
+		// quota on: the over-quota recipient first, in the middle, last, twice, alone; the others are new users and the role
+		for _, rc := range [][]string{{"FULL", "NEW"}, {"NEW", "FULL", "NEW"}, {"NEW", "FULL"}, {"FULL", "team@example.com", "FULL", "NEW"}, {"FULL"}, {"FULL", "FULL", "NEW", "NEW"}} {
+			txs = append(txs, txCase{0, rc, 0, false, false, true})
 		}
 		n := 60
 		if o.Thorough {
@@ -419,7 +484,16 @@ func main() {
 				}
 				rc = append(rc, e.rng.Pick(pool))
 			}
-			txs = append(txs, txCase{e.rng.Intn(nshape), rc, e.rng.Intn(3), e.rng.Chance(15), e.rng.Chance(60)})
+			if e.rng.Chance(12) {
+				// a quota transaction: the full store, new users and the role address in random order
+				var q []string
+				for j := 0; j < 1+e.rng.Intn(4); j++ {
+					q = append(q, e.rng.Pick([]string{"FULL", "FULL", "NEW", "NEW", "team@example.com"}))
+				}
+				txs = append(txs, txCase{e.rng.Intn(nshape), q, e.rng.Intn(3), e.rng.Chance(15), false, true})
+				continue
+			}
+			txs = append(txs, txCase{e.rng.Intn(nshape), rc, e.rng.Intn(3), e.rng.Chance(15), e.rng.Chance(60), false})
 		}
 	}
 	for _, t := range txs {
